@@ -534,6 +534,7 @@ pub fn generate(seed: u64, thorough: bool, emit: &mut dyn FnMut(String)) {
     generate_hardening(seed, thorough, emit);
     generate_round3(seed, thorough, emit);
     generate_round4(seed, thorough, emit);
+    generate_round5(seed, thorough, emit);
 }
 
 // ---------------------------------------------------------------- hardening families (scale, size, ties, rare paths)
@@ -1153,5 +1154,110 @@ fn generate_round4(seed: u64, thorough: bool, emit: &mut dyn FnMut(String)) {
         };
         let itermax = *rng.pick(&[2000usize, 2500, 3000, 5000]);
         emit_req(emit, &p, lo, init, hi, tol, itermax, extrema);
+    }
+}
+
+// ---------------------------------------------------------------- round-5 family: an initial guess that ALMOST equals a computed value
+
+/// (9) THE INITIAL GUESS WITHIN A RELATIVE 1e-16..1e-3 OF (BUT NOT EQUAL TO) A VALUE THE SOLVER COMPUTES: the first midpoint
+/// (two thirds of the cases), the root, one of the two possible second midpoints, a bracket end (from inside) - on both
+/// sides, at distances tied to the tolerance (0.001..100 times tol/100, the scale of the stop test), at log-uniform
+/// relative distances 1e-16..1e-3 and at 1..1000 units in the last place.  The statement gives the guess no role beyond
+/// "inside the bracket": a solver that measures its first step against the guess, seeds the previous estimate with it,
+/// or takes it for a converged iterate stops early with NoConvergence (or returns the guess).  The brackets are those of
+/// the completeness family (exact integer data, a sign change around a chosen root, mostly asymmetric so that the first
+/// midpoint is not itself a root), moderately scaled, budget >= 2000, and the tolerance is the LARGEST of 1e-12..1e-3 (or a
+/// random smaller one) that the converse clause of tools/props/c06.py still accepts for the bracket, so that the window
+/// `|mid - init| / |mid| * 100 < tol` is as wide as it can be while S judges the request.
+fn generate_round5(seed: u64, thorough: bool, emit: &mut dyn FnMut(String)) {
+    let mut rng = Rng::new(seed ^ 0xC06_0005_A11E);
+    let n = if thorough { 12000 } else { 900 };
+    for _ in 0..n {
+        let simple = rng.chance(1, 2);
+        let extrema = rng.chance(1, 3);
+        let (mut g, roots) = rooted_target(&mut rng, true);
+        let r = if roots.is_empty() { 0.0 } else { *rng.pick(&roots) };
+        let (lo, hi) = if roots.is_empty() {
+            (rng.range(-6, 0) as f64, rng.range(1, 6) as f64)
+        } else {
+            match rng.below(6) {
+                0 => (r - rng.range(1, 12) as f64 / 4.0, r + rng.range(1, 12) as f64 / 4.0),
+                1 => (r - rng.range(1, 5) as f64, r + rng.range(1, 7) as f64 / 8.0),
+                2 => (r - rng.range(1, 7) as f64 / 8.0, r + rng.range(1, 5) as f64),
+                _ => (r - rng.uniform(0.05, 3.0), r + rng.uniform(0.05, 3.0)),
+            }
+        };
+        let x = lo.abs().max(hi.abs());
+        moderate(&mut g, x.max(1.0), if extrema { 1.0 } else { 1000.0 });
+        if rng.chance(1, 2) {
+            // gentler slopes leave room for looser tolerances
+            let s = 2f64.powi(-(rng.range(1, 8) as i32));
+            for c in g.iter_mut() {
+                *c *= s;
+            }
+        }
+        let cs = if extrema { antiderivative840(&g, rng.range(-5, 5) as f64) } else { g.clone() };
+        // the function whose root is looked for, as the oracle sees it
+        let target: Vec<f64> = if extrema { cs.iter().enumerate().skip(1).map(|(k, c)| c * k as f64).collect() } else { cs.clone() };
+        let d = deriv_bound(&target, x);
+        let tols = [1e-3, 1e-4, 1e-5, 1e-6, 1e-7, 1e-8, 1e-9, 1e-10, 1e-11, 1e-12];
+        let ok: Vec<f64> = tols.iter().copied().filter(|t| d * t * x <= 4e-3).collect();
+        if ok.is_empty() {
+            continue;
+        }
+        let tol = if rng.chance(2, 3) { ok[0] } else { *rng.pick(&ok) };
+        let mid = if rng.chance(1, 2) { lo / 2.0 + hi / 2.0 } else { (lo + hi) / 2.0 };
+        // the computed value the guess almost equals, and the side on which it may lie
+        let (t, side): (f64, i32) = match rng.below(12) {
+            0 => (r, 0),
+            1 => ((lo + mid) / 2.0, 0),
+            2 => ((mid + hi) / 2.0, 0),
+            3 => if rng.chance(1, 2) { (lo, 1) } else { (hi, -1) },
+            _ => (mid, 0),
+        };
+        let up = match side {
+            1 => true,
+            -1 => false,
+            _ => rng.chance(1, 2),
+        };
+        let scale = if t != 0.0 { t.abs() } else { hi - lo };
+        let init = match rng.below(7) {
+            0 | 1 | 2 => {
+                let u = *rng.pick(&[0.001, 0.01, 0.1, 0.5, 0.9, 0.999, 1.001, 1.1, 2.0, 10.0, 100.0]);
+                let delta = scale * (tol / 100.0) * u;
+                if up { t + delta } else { t - delta }
+            }
+            3 | 4 => {
+                let delta = scale * 10f64.powf(rng.uniform(-16.0, -3.0));
+                if up { t + delta } else { t - delta }
+            }
+            _ => {
+                let k = *rng.pick(&[1usize, 1, 2, 3, 10, 1000]);
+                let mut v = t;
+                for _ in 0..k {
+                    v = if up { next_up(v) } else { next_down(v) };
+                }
+                v
+            }
+        };
+        if !(init >= lo && init <= hi) {
+            continue;
+        }
+        let p = as_kind(&cs, simple, &mut rng);
+        let itermax = *rng.pick(&[2000usize, 2048, 3000, 5000]);
+        emit_req(emit, &p, lo, init, hi, tol, itermax, extrema);
+    }
+    // the plain instances: x^2 - 4 on [0, 3], x^3 - x - 2 on [1, 2], 2x - 3 on [0, 2] with the guess next to the first midpoint
+    {
+        use spindalis_core::polynomials::structs::{PolynomialTraits, SimplePolynomial};
+        for (text, lo, hi) in [("x^2 - 4", 0.0, 3.0), ("x^3 - x - 2", 1.0, 2.0), ("2x - 3", 0.0, 2.0), ("x^2 - 4", -3.0, -1.0)] {
+            let p = AnyPoly::S(SimplePolynomial::parse(text).unwrap());
+            let mid: f64 = (lo + hi) / 2.0;
+            for tol in [1e-5, 1e-7, 1e-9] {
+                for init in [mid + 1e-9, mid - 1e-9, next_up(mid), next_down(mid), mid * (1.0 + 1e-12), mid * (1.0 - 3e-11)] {
+                    emit_req(emit, &p, lo, init, hi, tol, 3000, false);
+                }
+            }
+        }
     }
 }
